@@ -433,6 +433,10 @@ def run(tier, seed):
         failing += decoy_stream(ck, tmp, ops, ops_file, ref)
         failing += rewrite_histories(ck, tmp)
         failing += signer_histories(ck, tmp)
+        # one Encryptor object used for several requests (explicit key stores and the default one in turn): every result is what the
+        # request alone determines (judged by decrypting with the key the request names) — the object histories of the C06 check
+        import c06
+        failing += c06.object_histories(ck, tmp)
         ck.cov["rule"] = ("operations: create from JSON and from YAML of the same generated description, parse (yaml/json, hierarchy on/off), "
                           "mpi generate, cache_create from_payloads, image boot; reference = each in a fresh interpreter; histories = random "
                           "sequences with repetitions and permutations inside one interpreter under PYTHONHASHSEED in {0,1,2,random} and "
@@ -651,6 +655,14 @@ def short(res):
 
 
 def replay(path):
+    _rec = json.load(open(path))
+    if isinstance(_rec.get("input"), dict) and "object_history" in _rec["input"]:
+        import c06
+        return c06.replay(path)
+    return _replay(path)
+
+
+def _replay(path):
     rec = json.load(open(path))
     print("replay of a history needs the generated input files; re-run ./check C18 with VERIF_SEED=%s" % rec.get("seed", 0))
     return run("quick", rec.get("seed", 0))
